@@ -273,7 +273,7 @@ func (m *markCmd) Run(*brigodier.CommandContext) error { return nil }
 
 type recursionSentinel struct{ node int }
 
-const reqEvalLimit = 2000 // requirement evaluations of ONE node during ONE merge; a terminating copy needs <= #redirects+1
+const reqEvalLimit = 200 // requirement evaluations of ONE node during ONE merge; a terminating copy needs <= #redirects+1
 
 type reqRec struct {
 	evals    []int
